@@ -23,7 +23,7 @@ pub static DEF: PropDef = PropDef {
     level: "exploration",
     total: |t| t.pick(64, 4800),
     run,
-    rule: "decoder inputs: uniformly random bytes of length 0..120, every truncation of valid packets, valid packets with one field pushed to an extreme (IHL, total_length 0..19, TTL 0, data offset, DHCP type 0 and 8..255, rdlength, non-UTF-8 / unterminated names) or random bit flips; each of Ipv4Header/UdpHeader/TcpHeader/ArpPacket/DnsMessage/DhcpMessage::from_bytes plus DnsQuestion::query_name and MessageType::try_from must return, not unwind. NDL texts: the repository's .ndl/.txt files mutated by token insertion/deletion/duplication, truncation at every kind of position, indentation shifts (tabs, 4 spaces, mixed), keyword swaps incl. IPtype, quotes/brackets/backslashes, CRLF and non-ASCII; core_parser must return Ok or Err. Full-stack part: malformed raw frames injected with PciSession::send_pci into running hosts, a router and DHCP/DNS servers must reach no recorder application and leave a concurrent legitimate UDP exchange and TCP connection unaffected (run ends with the scripted status). Non-trivial = distinct (decoder or parser, outcome variant, mutation kind) tuple.",
+    rule: "decoder inputs: uniformly random bytes of length 0..120, every truncation of valid packets, valid packets with one field pushed to an extreme (IHL, total_length 0..19, TTL 0, data offset, DHCP type 0 and 8..255, rdlength, non-UTF-8 / unterminated names) or random bit flips, and compound mutations (2..4 of truncation, bit flip, byte or 16-bit field set to an extreme, extension applied to one packet); each of Ipv4Header/UdpHeader/TcpHeader/ArpPacket/DnsMessage/DhcpMessage::from_bytes plus DnsQuestion::query_name and MessageType::try_from must return, not unwind, and so must the next thing the stack does with an accepted header (re-serialise it, strip header.ihl*4 / 8 / 20 bytes from the frame as Ipv4/Udp/Tcp::demux do). NDL texts: the repository's .ndl/.txt files mutated by token insertion/deletion/duplication, truncation at every kind of position, indentation shifts (tabs, 4 spaces, mixed), keyword swaps incl. IPtype, quotes/brackets/backslashes, CRLF and non-ASCII; core_parser must return Ok or Err. Full-stack part: malformed raw frames (16 single-fault classes plus compound mutations: one to three of version/IHL, total length, fragment word, protocol, UDP length, TCP data offset, truncation, extension applied together, so that fields disagree with each other and with the bytes that arrived) injected with PciSession::send_pci into running hosts, a router and DHCP/DNS servers must crash nothing, reach no recorder application and leave a concurrent legitimate UDP exchange and TCP connection unaffected (run ends with the scripted status). Non-trivial = distinct (decoder or parser, outcome variant, mutation kind) tuple.",
     assumptions: &["a panic caught by catch_unwind in the harness is what the simulator's panic hook would turn into process exit"],
     may_exit_process: true,
     watchdog_s: 600,
@@ -73,11 +73,19 @@ fn decode_all(which: &str, b: &[u8]) -> Result<String, String> {
                 // what the stack does next with an accepted header
                 let _ = h.serialize();
                 let _ = format!("{h:?}");
+                // Ipv4::demux strips the header it has just accepted
+                let mut m = elvis_core::Message::new(b.clone());
+                m.remove_front(h.ihl as usize * 4);
             }
             push("ipv4", r.is_ok(), r.err().map(|e| format!("{e:?}")).unwrap_or_default().split('{').next().unwrap_or("").trim().to_string());
         }
         if which == "all" || which == "udp" {
             let r = UdpHeader::from_bytes_ipv4(b.iter().cloned(), b.len(), a, z);
+            if r.is_ok() {
+                // Udp::demux strips the header it has just accepted
+                let mut m = elvis_core::Message::new(b.clone());
+                m.remove_front(8);
+            }
             push("udp", r.is_ok(), r.err().map(|e| format!("{e:?}")).unwrap_or_default().split('{').next().unwrap_or("").trim().to_string());
         }
         if which == "all" || which == "tcp" {
@@ -85,6 +93,9 @@ fn decode_all(which: &str, b: &[u8]) -> Result<String, String> {
             if let Ok(h) = &r {
                 let _ = h.serialize();
                 let _ = format!("{h:?}");
+                // Tcp::demux strips the header it has just accepted
+                let mut m = elvis_core::Message::new(b.clone());
+                m.remove_front(20);
             }
             push("tcp", r.is_ok(), r.err().map(|e| format!("{e:?}")).unwrap_or_default().split('{').next().unwrap_or("").trim().to_string());
         }
@@ -122,7 +133,7 @@ fn decoders(d: &mut Delta, rng: &mut impl Rng, n: usize) {
     for i in 0..n {
         let valids = valid_packets(rng);
         let (name, base) = valids[rng.gen_range(0..valids.len())].clone();
-        let kind = rng.gen_range(0..8);
+        let kind = rng.gen_range(0..10);
         let (bytes, which, kname): (Vec<u8>, &str, &str) = match kind {
             0 => {
                 let len = rng.gen_range(0..120);
@@ -196,6 +207,43 @@ fn decoders(d: &mut Delta, rng: &mut impl Rng, n: usize) {
                     }
                 }
                 (b, name, "bad-string")
+            }
+            8 | 9 => {
+                // compound: two to four mutations of different kinds on the same packet, so that fields
+                // disagree with each other and with the number of bytes present
+                let mut b = base.clone();
+                for _ in 0..rng.gen_range(2..=4) {
+                    if b.is_empty() {
+                        break;
+                    }
+                    match rng.gen_range(0..6) {
+                        0 => b.truncate(rng.gen_range(0..=b.len())),
+                        1 => {
+                            let i = rng.gen_range(0..b.len());
+                            b[i] ^= 1 << rng.gen_range(0..8);
+                        }
+                        2 => {
+                            let i = rng.gen_range(0..b.len().min(32));
+                            b[i] = *rng.pick(&[0u8, 0xff, 0x80, 0x7f, 0x4f, 0x46, 0xf0]);
+                        }
+                        3 => {
+                            let i = rng.gen_range(0..b.len().min(32));
+                            b[i] = rng.gen();
+                        }
+                        4 => {
+                            if b.len() >= 4 {
+                                let i = rng.gen_range(0..(b.len() - 1).min(30));
+                                let l: u16 = *rng.pick(&[0u16, 1, 19, 20, 60, 0x7fff, 0x8000, 0xffff]);
+                                b[i..i + 2].copy_from_slice(&l.to_be_bytes());
+                            }
+                        }
+                        _ => {
+                            let extra = rng.gen_range(0..40);
+                            b.extend_from_slice(&rng.bytes(extra));
+                        }
+                    }
+                }
+                (b, if rng.chance(1, 2) { name } else { "all" }, "compound")
             }
             6 => {
                 // a valid packet of one protocol fed to every other decoder
